@@ -16,7 +16,7 @@ TECH = {
  'C07': ('rapidcheck + invariants over the interleaved hook/kill trace', 'Scripted prekill hooks (fire/poll/destroy) interleaved with interposed kill(2)/xattr events; priority and pattern model.'),
  'C08': ('rapidcheck + reference predicate over the sample history (virtual clock)', 'Each real detector verdict per tick equals the documented predicate over the whole generated history.'),
  'C09': ('rapidcheck + reference ranking with acceptable set / tolerances', 'First victim of each real kill plugin must lie in the RankModel acceptable set; exact integer thresholds, 64-bit totals.'),
- 'C10': ('exhaustive fault enumeration + rapidcheck multi-fault sampling, crash-resuming driver', 'Every (role x file x mode x timing) fault, host-file fault, missing key (for the whole run or one tick), d_type loss, vanishing subtree and every mid-tick removal point of a baseline; clean termination (per-case watchdog against hangs), identity-aware containment, no fabricated statistic.'),
+ 'C10': ('exhaustive fault enumeration + rapidcheck multi-fault sampling, crash-resuming driver', 'Every (role x file x mode x timing) fault, host-file fault, missing key (for the whole run or one tick), d_type loss, vanishing subtree and every mid-tick removal point of a baseline; clean termination (per-case watchdog against hangs), identity-aware containment, no fabricated statistic; plus the statistics model of C15 over every accessor with control-file faults in every case.'),
  'C11': ('rapidcheck stateful histories + per-instance EngineModel on tmpfs', 'Instance set, per-instance state, prerun and init arguments over create/remove/re-create/tag histories; ASan on the discard path.'),
  'C12': ('libFuzzer (config text) + rapidcheck (IR / size grammar vs exact SizeModel) + real binary', 'Reject-or-honour: no exception from compile, documented constraints decide acceptance, exact byte counts, process exit status.'),
  'C13': ('rapidcheck stateful (model-based) + metamorphic reversibility against a second real engine', 'Evaluation order, replacement scope, enablement, counter and hook priority after every operation; remove(T) equals history without T.'),
